@@ -231,7 +231,7 @@ public:
     QXmppTransferFileInfo fileInfo;
 
     // for in-band bytestreams
-    int ibbSequence;
+    quint16 ibbSequence;
 
     // for socks5 bytestreams
     QTcpSocket *socksSocket;
